@@ -27,15 +27,45 @@ type poisonIn struct {
 
 // fakeCatalog answers /v1/catalog/service/<name> from the current case.
 type fakeCatalog struct {
-	mu     sync.Mutex
-	regs   []Reg
-	served int
+	mu      sync.Mutex
+	entries []catalogEntry
+	served  int
 }
 
+// catalogEntry is one element of Consul's answer. Like Consul the fakes keep CreateIndex when the same
+// (node, service id) registers again and only move ModifyIndex.
 type catalogEntry struct {
 	Node, Address, ServiceID, ServiceName, ServiceAddress string
 	ServicePort                                           int
 	ServiceTags                                           []string
+	CreateIndex, ModifyIndex                              uint64
+}
+
+func (f *fakeCatalog) set(entries []catalogEntry) {
+	f.mu.Lock()
+	f.entries = entries
+	f.served = 0
+	f.mu.Unlock()
+}
+
+func (f *fakeCatalog) lookups() int {
+	f.mu.Lock()
+	defer f.mu.Unlock()
+	return f.served
+}
+
+// theFake returns the process-wide fake Consul and one API client (one connection pool) for it.
+func theFake() (*fakeCatalog, *api.Client, string, error) {
+	fakeOnce.Do(func() {
+		fakeSrv = httptest.NewServer(fake)
+		fakeClient, fakeErr = api.NewClient(&api.Config{Address: strings.TrimPrefix(fakeSrv.URL, "http://"), Scheme: "http"})
+	})
+	return fake, fakeClient, strings.TrimPrefix(fakeSrv.URL, "http://"), fakeErr
+}
+
+func entryOf(slot int, g *Reg, create, modify uint64) catalogEntry {
+	return catalogEntry{Node: nodeOf(slot), Address: g.Node, ServiceID: sidOf(slot), ServiceName: g.Name, ServiceAddress: g.Addr,
+		ServicePort: g.Port, ServiceTags: g.Tags, CreateIndex: create, ModifyIndex: modify}
 }
 
 func nodeOf(i int) string { return fmt.Sprintf("node-%d", i) }
@@ -53,9 +83,9 @@ func (f *fakeCatalog) ServeHTTP(w http.ResponseWriter, req *http.Request) {
 	out := []catalogEntry{}
 	f.mu.Lock()
 	f.served++
-	for i, g := range f.regs {
-		if g.Name == name {
-			out = append(out, catalogEntry{Node: nodeOf(i), Address: g.Node, ServiceID: sidOf(i), ServiceName: g.Name, ServiceAddress: g.Addr, ServicePort: g.Port, ServiceTags: g.Tags})
+	for _, e := range f.entries {
+		if e.ServiceName == name {
+			out = append(out, e)
 		}
 	}
 	f.mu.Unlock()
@@ -75,25 +105,19 @@ func runPoison(raw json.RawMessage) (interface{}, error) {
 	if err := json.Unmarshal(raw, &in); err != nil {
 		return nil, err
 	}
-	// one fake Consul and one API client (one connection pool) per harness process
-	fakeOnce.Do(func() {
-		fakeSrv = httptest.NewServer(fake)
-		fakeClient, fakeErr = api.NewClient(&api.Config{Address: strings.TrimPrefix(fakeSrv.URL, "http://"), Scheme: "http"})
-	})
-	if fakeErr != nil {
-		return nil, fakeErr
+	fake, client, addr, err := theFake()
+	if err != nil {
+		return nil, err
 	}
-	fake.mu.Lock()
-	fake.regs = in.Regs
-	fake.served = 0
-	fake.mu.Unlock()
-
+	var entries []catalogEntry
 	var passing []*api.HealthCheck
 	for i, g := range in.Regs {
+		entries = append(entries, entryOf(i, &g, uint64(i+1), uint64(i+1)))
 		passing = append(passing, &api.HealthCheck{Node: nodeOf(i), CheckID: "c", Status: "passing", ServiceID: sidOf(i), ServiceName: g.Name, ServiceTags: g.Tags})
 	}
-	cfg := &config.Consul{Addr: strings.TrimPrefix(fakeSrv.URL, "http://"), Scheme: "http", TagPrefix: in.Prefix, ServiceMonitors: 1}
-	text := consul.VerifC14MakeConfig(fakeClient, cfg, in.DC, passing)
+	fake.set(entries)
+	cfg := &config.Consul{Addr: addr, Scheme: "http", TagPrefix: in.Prefix, ServiceMonitors: 1}
+	text := consul.VerifC14MakeConfig(client, cfg, in.DC, passing)
 	// every named service must have been looked up exactly once: a failed catalog request (which serviceConfig
 	// only logs) would silently drop that service's routes from the text
 	names := map[string]bool{}
@@ -102,10 +126,7 @@ func runPoison(raw json.RawMessage) (interface{}, error) {
 			names[g.Name] = true
 		}
 	}
-	fake.mu.Lock()
-	served := fake.served
-	fake.mu.Unlock()
-	if served != len(names) {
+	if served := fake.lookups(); served != len(names) {
 		return nil, fmt.Errorf("fake catalog served %d of %d service lookups", served, len(names))
 	}
 	env := map[string]string{"DC": in.DC}
